@@ -208,7 +208,7 @@ type Args struct {
 	AddrPort  string          `json:"addr,omitempty"` // SetListener: netip.AddrPort text, "" = zero value
 	Time      *Civil          `json:"time,omitempty"`
 	Card      *Card           `json:"card,omitempty"`
-	Formats   []uint8         `json:"formats,omitempty"`
+	Formats   []int           `json:"formats,omitempty"`
 	Profile   *Profile        `json:"profile,omitempty"`
 	Task      *Task           `json:"task,omitempty"`
 	Passcodes []uint32        `json:"passcodes,omitempty"`
